@@ -78,6 +78,20 @@ var wildBodies = []string{
 	`<!-- a --! b -->{{$.S0}}`, `<!-- x --!{{$.S0}}-->`, `<!--{{$.S0}}--!`, `<!-- --!`, `<!----!--->x`, `<p><!-- c --! --!> d -->{{$.S0}}</p>`,
 }
 
+var ahBodies = []string{``, `tr`, ` bookmark`, `:`, `quest;`, `amp`, `/b`, `x`, `{{$.S0}}`, `x{{$.S1}}`, `{{if $.C0}}{{end}}`, `?q=`, `#`, `.`, `%2`, ` `, `javascript:`, `{{with $.N}}{{template "ah" .}}{{end}}x`, `/{{$.S0}}{{with $.N}}{{template "ah" .}}{{end}}`}
+
+// ahSites are attribute values with a call (@) of the helper "ah".
+var ahSites = []string{
+	`<a href="@">x</a>`, `<a href="/a@{{$.S1}}">x</a>`, `<a href="/a&@{{$.S1}}">x</a>`, `<a href="/a?b&@{{$.S1}}">x</a>`, `<a href="{{$.S0}}@:x">x</a>`, `<a href="{{$.S0}}@{{$.S1}}">x</a>`,
+	`<a href="{{if $.C0}}/a{{else}}/b{{end}}@">x</a>`, `<a href="{{if $.C1}}/a{{else}}/b{{end}}@:x">x</a>`, `<a href="{{if $.C1}}{{$.S0}}x{{else}}{{$.S0}}{{end}}@:alert(1)">x</a>`, `<a href="{{$.S0}}{{if $.C0}}/{{end}}@">x</a>`,
+	`<a href="{{if $.C0}}{{else}}java{{end}}@">x</a>`, `<a href="ja@">x</a>`, `<a href="javascript:alert(@)">x</a>`, `<a href="/b c/@">x</a>`, `<a href="/p?q=%@">x</a>`, `<a href="/p?q=@">x</a>`, `<a href="/p#@">x</a>`,
+	`<p dir="l@">x</p>`, `<p dir="@">x</p>`, `<p dir="{{$.S1}}@">x</p>`, `<p dir="{{if $.C0}}{{else}}x{{end}}@">x</p>`, `<img srcset="/a@">`, `<img srcset="{{$.S0}}@">`, `<img srcset="@">`,
+	`<link rel="icon@" href="{{$.S2}}">`, `<link rel="stylesheet@" href="{{$.S2}}">`, `<link rel="{{$.S1}}@" href="{{$.S2}}">`, `<link rel="@" href="{{$.S2}}">`,
+	`<p title="x@">x</p>`, `<p title="{{$.S0}}@{{$.S1}}">x</p>`, `<p title="{{if $.C0}}{{$.S0}}/{{else}}{{$.S0}}?{{end}}@">x</p>`, `<p style="color:red;&am@">x</p>`, `<p style="@">x</p>`,
+	`<script src="/a/.@"></script>`, `<script src="https://example.com@"></script>`, `<script src="https://example.com/@"></script>`, `<iframe src="/a/@./b"></iframe>`,
+	`<s{{/**/}}cript>@</script>`, `<p>@</p>`, `<textarea>@</textarea>`, `<object>@</object>`, `<object><b>@</b></object>`,
+}
+
 // GenSet generates a template set.
 func GenSet(r *core.Rng, o SetOpts) Set {
 	if o.Members == 0 {
@@ -120,6 +134,13 @@ func GenSet(r *core.Rng, o SetOpts) Set {
 	// co-recursive helper pairs: one whose end context cannot be computed, one that is fine
 	defs.WriteString(`{{define "cy"}}{{with $.N}}{{template "cz" .}}{{end}}<a title="{{end}}{{define "cz"}}{{template "cy" $}}{{end}}`)
 	defs.WriteString(`{{define "cy2"}}{{with $.N}}{{template "cz2" .}}{{end}}<i>{{$.S0}}</i>{{end}}{{define "cz2"}}<b>{{template "cy2" $}}</b>{{end}}`)
+	// a tiny helper that is called from attribute values whose texts and flags differ in ways
+	// that the name of the callee's copy has to reflect
+	attrSites := 0
+	if r.Intn(3) == 0 {
+		defs.WriteString(`{{define "ah"}}` + r.Pick(ahBodies) + `{{end}}`)
+		attrSites = 2 + r.Intn(2)
+	}
 	failSet := map[int]string{}
 	modes := []string{}
 	for m := range failBodies {
@@ -182,6 +203,13 @@ func GenSet(r *core.Rng, o SetOpts) Set {
 				s.Failing = append(s.Failing, name)
 				s.Modes = append(s.Modes, "call-after-action")
 			}
+		}
+		if attrSites > 0 && failSet[i] == "" && i >= o.Members-attrSites {
+			body = strings.ReplaceAll(r.Pick(ahSites), "@", `{{template "ah" $}}`)
+			if r.Intn(3) == 0 {
+				body = g.items(1) + body
+			}
+			pure = true // no further calls around it
 		}
 		if r.Intn(12) == 0 && failSet[i] == "" && !pure {
 			body += `{{template "cz2" $}}`
